@@ -264,8 +264,8 @@ Definition header_agrees (gs : list group) (h : header) : Prop :=
     r_float0 0 gs nm_POINT nm_RATE = Ok rate /\ f_key rate = Ok k /\ f_key (h_rate h) = Ok k /\
     r_int0 0 gs nm_POINT nm_USED = Ok u /\ z_to_usize u = h_points h /\
     group_named gs nm_ANALOG = Ok ga /\ nlen (g_params ga) <> 0 /\
-    ((f_tosize rate = Ok 0 /\ h_byframe h = 1) \/
-     (exists rs ar, f_tosize rate = Ok rs /\ rs <> 0 /\ r_float0 0 gs nm_ANALOG nm_RATE = Ok ar /\ f_tosize (f_div ar rate) = Ok (h_byframe h))) /\
+    ((f32_is_zero rate = true /\ h_byframe h = 1) \/
+     (exists ar, f32_is_zero rate = false /\ r_float0 0 gs nm_ANALOG nm_RATE = Ok ar /\ f_tosize (f_div ar rate) = Ok (h_byframe h))) /\
     r_int0 0 gs nm_ANALOG nm_USED = Ok au /\ z_to_usize au = h_nb_analogs h /\
     r_int0 0 gs nm_POINT nm_FRAMES = Ok fz /\ z_to_usize fz = h_nb_frames h.
 
@@ -287,9 +287,9 @@ Proof.
     assert (Gg : get_group nm_ANALOG (mkState h pr gs []) = ROk ga (mkState h pr gs [])).
     { unfold get_group. cbv [bind getS]. cbn [groups]. rewrite Hga. reflexivity. }
     rewrite Gg. apply N.eqb_neq in Nga. rewrite Nga. cbn [negb when].
-    destruct Hbf as [[Hz Hb1]|(rs & ar & Hrs & Nrs & Har & Hq)].
-    - unfold bind at 1. rewrite Hz. cbn [lift]. cbn [N.eqb hdr]. rewrite Hb1. reflexivity.
-    - unfold bind at 1. rewrite Hrs. cbn [lift]. apply N.eqb_neq in Nrs. rewrite Nrs.
+    destruct Hbf as [[Hz Hb1]|(ar & Nrs & Har & Hq)].
+    - rewrite Hz. cbn [hdr]. rewrite Hb1. reflexivity.
+    - rewrite Nrs.
       unfold bind at 1. rewrite float0_pure. cbn [groups]. change (r_float0 15) with (r_float0 0). rewrite Har. cbn [lift].
       unfold bind at 1. rewrite Hq. cbn [lift hdr]. rewrite N.eqb_refl. reflexivity. }
   rewrite Bf. unfold bind at 1.
